@@ -22,8 +22,12 @@ import (
 )
 
 type gStmt struct {
-	kind    string // line option-group if set declare jump stop command call
+	kind    string // line option-group if set setop declare jump jumpexpr stop command call
 	text    string
+	want    string   // line: the text the tree must hold (escapes resolved); "" = text
+	tags    []string // line: tags in order
+	args    []*gExpr // call: arguments
+	op      string   // setop: += -= *= /= %=
 	opts    []gOpt
 	clauses []gClause
 	expr    *gExpr
@@ -39,9 +43,10 @@ type gClause struct {
 	body []gStmt
 }
 type gExpr struct {
-	op   string // "" leaf
+	op   string // "" leaf, "call" function call (leaf = name)
 	leaf string
 	l, r *gExpr
+	args []*gExpr
 }
 type gNode struct {
 	title string
@@ -74,6 +79,13 @@ func (e *gExpr) render(l *layout, top bool) string {
 	if e.op == "" {
 		return e.leaf
 	}
+	if e.op == "call" {
+		var as []string
+		for _, a := range e.args {
+			as = append(as, a.render(l, true))
+		}
+		return e.leaf + "(" + strings.Join(as, ", ") + ")"
+	}
 	if e.op == "!" {
 		s := [2]string{"!", "not "}[l.spell]
 		return s + e.l.render(l, false)
@@ -89,6 +101,9 @@ func genExpr(r *rand.Rand, depth int, boolean bool) *gExpr {
 	if depth == 0 || r.Intn(3) == 0 {
 		if boolean {
 			return &gExpr{leaf: []string{"true", "false", "$b"}[r.Intn(3)]}
+		}
+		if r.Intn(6) == 0 {
+			return &gExpr{op: "call", leaf: []string{"dice", "fn_2", "round"}[r.Intn(3)], args: []*gExpr{{leaf: "6"}, {leaf: "$n"}}[:1+r.Intn(2)]}
 		}
 		return &gExpr{leaf: []string{"1", "2", "$n", "3.5", "10"}[r.Intn(5)]}
 	}
@@ -149,9 +164,27 @@ func genBody(r *rand.Rand, depth, n int, titles []string) []gStmt {
 				out = append(out, gStmt{kind: "set", name: "$b", expr: genExpr(r, 2, true)})
 			}
 		default:
-			if r.Intn(2) == 0 {
+			switch r.Intn(9) {
+			case 0:
 				out = append(out, gStmt{kind: "jump", name: titles[r.Intn(len(titles))]})
-			} else {
+			case 1:
+				out = append(out, gStmt{kind: "jumpexpr", name: "$node"})
+			case 2:
+				out = append(out, gStmt{kind: "stop"})
+			case 3:
+				out = append(out, gStmt{kind: "call", name: []string{"fn_1", "log"}[r.Intn(2)], args: []*gExpr{genExpr(r, 1, false), {leaf: "\"two words\""}}[:1+r.Intn(2)]})
+			case 4:
+				out = append(out, gStmt{kind: "setop", name: "$n", op: []string{"+=", "-=", "*=", "/=", "%="}[r.Intn(5)], expr: genExpr(r, 1, false)})
+			case 5:
+				out = append(out, gStmt{kind: "set", name: "$s", expr: &gExpr{op: "+", l: &gExpr{leaf: "\"a b\""}, r: &gExpr{op: "call", leaf: "string", args: []*gExpr{{leaf: "$n"}}}}})
+			case 6:
+				out = append(out, gStmt{kind: "command", text: []string{"iffy 1 true", "settings on -2.5", "jumpy Node0", "stopper", "callme maybe", "declared x 3", "setup false"}[r.Intn(7)]})
+			case 7:
+				// escapes resolved by the front end; \[ and \] are left to the markup parser
+				k := lineCount
+				out = append(out, gStmt{kind: "line", text: fmt.Sprintf("\\#x%d \\{0\\} \\<\\<c\\>\\> a \\/\\/ b back\\\\slash \\[m\\] it's 50%% #t%d #u%d", k, k, k),
+					want: fmt.Sprintf("#x%d {0} <<c>> a // b back\\slash \\[m\\] it's 50%%", k), tags: []string{fmt.Sprintf("t%d", k), fmt.Sprintf("u%d", k)}})
+			default:
 				out = append(out, gStmt{kind: "line", text: fmt.Sprintf("Plain %d #tag%d", lineCount, lineCount)})
 			}
 		}
@@ -274,6 +307,18 @@ func (w *renderer) block(depth int, body []gStmt) {
 			w.emit(depth, cmd(l, "declare "+s.name+" = "+s.expr.render(l, true)))
 		case "jump":
 			w.emit(depth, cmd(l, "jump "+s.name))
+		case "jumpexpr":
+			w.emit(depth, cmd(l, "jump {"+s.name+"}"))
+		case "stop":
+			w.emit(depth, cmd(l, "stop"))
+		case "call":
+			var as []string
+			for _, a := range s.args {
+				as = append(as, a.render(l, true))
+			}
+			w.emit(depth, cmd(l, "call "+s.name+"("+strings.Join(as, ", ")+")"))
+		case "setop":
+			w.emit(depth, cmd(l, "set "+s.name+" "+s.op+" "+s.expr.render(l, true)))
 		case "command":
 			w.emit(depth, cmd(l, s.text))
 		}
@@ -390,19 +435,26 @@ func (e *gExpr) renderMinimal(l *layout) string {
 	if e.op == "" {
 		return e.leaf
 	}
+	if e.op == "call" {
+		var as []string
+		for _, a := range e.args {
+			as = append(as, a.renderMinimal(l))
+		}
+		return e.leaf + "(" + strings.Join(as, ", ") + ")"
+	}
 	if e.op == "!" {
 		in := e.l.renderMinimal(l)
-		if e.l.op != "" && e.l.op != "!" {
+		if e.l.op != "" && e.l.op != "!" && e.l.op != "call" {
 			in = "(" + in + ")"
 		}
 		return [2]string{"!", "not "}[l.spell] + in
 	}
 	lv := opLevel[e.op]
 	ls, rs := e.l.renderMinimal(l), e.r.renderMinimal(l)
-	if e.l.op != "" && e.l.op != "!" && opLevel[e.l.op] < lv {
+	if e.l.op != "" && e.l.op != "!" && e.l.op != "call" && opLevel[e.l.op] < lv {
 		ls = "(" + ls + ")"
 	}
-	if e.r.op != "" && e.r.op != "!" && opLevel[e.r.op] <= lv { // left-associative: an equal level on the right needs parentheses
+	if e.r.op != "" && e.r.op != "!" && e.r.op != "call" && opLevel[e.r.op] <= lv { // left-associative: an equal level on the right needs parentheses
 		rs = "(" + rs + ")"
 	}
 	return ls + " " + opSpell[e.op][l.spell] + " " + rs
@@ -413,8 +465,22 @@ func matchExpr(g *gExpr, e *Expression) string {
 		return "missing expression for " + g.render(&layout{}, true)
 	}
 	switch {
+	case g.op == "call":
+		if e.FunctionCall == nil || e.FunctionCall.FunctionID != g.leaf || len(e.FunctionCall.Arguments) != len(g.args) || e.Operator != nil || e.Value != nil {
+			return "function call " + g.leaf + " not found"
+		}
+		for i, a := range g.args {
+			if m := matchExpr(a, e.FunctionCall.Arguments[i]); m != "" {
+				return "argument of " + g.leaf + ": " + m
+			}
+		}
+		return ""
 	case g.op == "":
 		switch {
+		case strings.HasPrefix(g.leaf, "\""):
+			if e.Value == nil || e.Value.String == nil || *e.Value.String != strings.Trim(g.leaf, "\"") {
+				return "string literal " + g.leaf + " not found"
+			}
 		case g.leaf == "true" || g.leaf == "false":
 			if e.Value == nil || e.Value.Boolean == nil || *e.Value.Boolean != (g.leaf == "true") {
 				return "boolean literal " + g.leaf + " not found"
@@ -429,7 +495,7 @@ func matchExpr(g *gExpr, e *Expression) string {
 				return "number literal " + g.leaf + " not found"
 			}
 		}
-		if e.LeftOperand != nil || e.RightOperand != nil || e.NotExpression != nil || e.NegativeExpression != nil || e.Operator != nil {
+		if e.LeftOperand != nil || e.RightOperand != nil || e.NotExpression != nil || e.NegativeExpression != nil || e.Operator != nil || e.FunctionCall != nil {
 			return "leaf " + g.leaf + " carries an operator"
 		}
 	case g.op == "!":
@@ -477,7 +543,9 @@ func matchStmts(gs []gStmt, ps []*Statement) string {
 		case "line":
 			want := g.text
 			var tags []string
-			if k := strings.Index(want, " #"); k >= 0 {
+			if g.want != "" {
+				want, tags = g.want, g.tags
+			} else if k := strings.Index(want, " #"); k >= 0 {
 				tags = []string{want[k+2:]}
 				want = want[:k]
 			}
@@ -486,7 +554,7 @@ func matchStmts(gs []gStmt, ps []*Statement) string {
 			if p.LineStatement == nil || got != want {
 				return fmt.Sprintf("line %q parsed as %q", want, got)
 			}
-			if len(tags) != len(p.LineStatement.Tags) || (len(tags) == 1 && tags[0] != p.LineStatement.Tags[0]) {
+			if len(tags) != len(p.LineStatement.Tags) || strings.Join(tags, ",") != strings.Join(p.LineStatement.Tags, ",") {
 				return fmt.Sprintf("line %q has tags %v, wanted %v", want, p.LineStatement.Tags, tags)
 			}
 			if strings.Contains(g.text, "{$n}") {
@@ -562,6 +630,36 @@ func matchStmts(gs []gStmt, ps []*Statement) string {
 			if js == nil || js.Expression == nil || js.Expression.Value == nil || js.Expression.Value.String == nil || *js.Expression.Value.String != g.name {
 				return "jump " + g.name + " not found"
 			}
+		case "jumpexpr":
+			js := p.JumpStatement
+			if js == nil || js.Expression == nil || js.Expression.VariableID == nil || *js.Expression.VariableID != g.name[1:] {
+				return "jump by expression {" + g.name + "} not found"
+			}
+		case "stop":
+			cs := p.CommandStatement
+			if cs == nil || len(cs.Elements) != 1 || cs.Elements[0].Expression == nil || cs.Elements[0].Expression.Value == nil ||
+				cs.Elements[0].Expression.Value.String == nil || *cs.Elements[0].Expression.Value.String != "stop" {
+				return "stop not found"
+			}
+		case "call":
+			cs := p.CallStatement
+			if cs == nil || cs.FunctionCall == nil || cs.FunctionID != g.name || len(cs.Arguments) != len(g.args) {
+				return "call " + g.name + " not found"
+			}
+			for k, a := range g.args {
+				if m := matchExpr(a, cs.Arguments[k]); m != "" {
+					return "call " + g.name + ": " + m
+				}
+			}
+		case "setop":
+			ss := p.SetStatement
+			wantOp := map[string]int{"+=": AdditionInPlaceOperator, "-=": SubtractionInPlaceOperator, "*=": MultiplicationInPlaceOperator, "/=": DivisionInPlaceOperator, "%=": ModuloInPlaceOperator}[g.op]
+			if ss == nil || ss.VariableID != g.name[1:] || ss.InPlaceOperator != wantOp {
+				return "set " + g.name + " " + g.op + " not found"
+			}
+			if m := matchExpr(g.expr, ss.Expression); m != "" {
+				return "set " + g.name + " " + g.op + ": " + m
+			}
 		case "command":
 			cs := p.CommandStatement
 			words := strings.Fields(g.text)
@@ -578,7 +676,11 @@ func matchStmts(gs []gStmt, ps []*Statement) string {
 						return "command " + g.text + ": inline expression lost"
 					}
 				default:
-					if f, err := strconv.ParseFloat(w, 64); err == nil {
+					if w == "true" || w == "false" {
+						if e.Value == nil || e.Value.Boolean == nil || *e.Value.Boolean != (w == "true") {
+							return "command " + g.text + ": boolean word " + w
+						}
+					} else if f, err := strconv.ParseFloat(w, 64); err == nil {
 						if e.Value == nil || e.Value.Number == nil || *e.Value.Number != f {
 							return "command " + g.text + ": number word " + w
 						}
